@@ -93,8 +93,48 @@ def run_c06(tier, seed, out):
     out.cov["distinct_nontrivial"] = max(out.cov["distinct_nontrivial"], out.cov["traces_validated_against_impl"])
 
 
-RUNNERS = {"C04": run_c04, "C05": run_c05, "C06": run_c06}
-SPECS = {"C04": "TraceDemux", "C05": "TraceLink", "C06": "TraceArp"}
+LIFE_CFG = """SPECIFICATION Spec
+CONSTANTS
+  Procs <- P4
+  Behaviour <- %s
+  Init0 <- IniA
+  ReqAt <- %s
+  T = 3
+  Cap = 2
+  FirstWins = TRUE
+INVARIANTS Barrier Status Bound NoHangForever
+CHECK_DEADLOCK FALSE
+"""
+
+
+def drive_validate_resumable(out, prop, binary, cmd, spec, runs, seed, label):
+    tp = os.path.join(workdir("fn-" + prop), cmd + ".ndjson")
+    args = [cmd, "--seed", str(seed), "--out", tp]
+    st = hv_resumable(binary, args, runs)
+    chunked_validate(out, prop, spec, tp, args + ["--runs", str(runs)], 60000)
+    if len(out.cov["samples"]) < 6:
+        out.cov["samples"] += read_first(tp, 5)
+    log("  %s: %d runs (%d process restarts after panics) validated by %s" % (label, runs, st["restarts"], spec))
+    return st
+
+
+def run_c13(tier, seed, out):
+    log("[C13] model checking Lifecycle.tla (barrier, competing shutdown requests, bounded channel, timeouts)")
+    for beh, req in (("BehA", "ReqA"), ("BehB", "ReqA"), ("BehB", "ReqB"), ("BehC", "ReqA")):
+        model(out, "MC_Lifecycle.tla", LIFE_CFG % (beh, req), "life-%s-%s" % (beh, req), workers=4, timeout=600)
+    log("[C13] real run_internet_with_timeout runs (scripted + built-in protocols) validated by TraceLifecycle.tla")
+    build_harness(("hv-sim",))
+    drive_validate_resumable(out, "C13", HV_SIM, "life-drive", "TraceLifecycle", 800 if tier == "quick" else 12000, seed, "lifecycle scenarios")
+    out.cov["rule"] = ("0-4 machines with 0-3 scripted applications (initialisation 0 / 1 ms / 20 ms / 1 s / 2 s; afterwards nothing, frames, a shutdown request, "
+                       "a burst of 2/17/20 requests with distinct statuses, or hanging forever) mixed with Pci, Udp+Ipv4(+Arp) and SendMessage / Capture / Forward; "
+                       "timeouts 10 ms, 50 ms, 1 s, 3 s; distinct counted as runs")
+    out.cov["distinct_nontrivial"] = max(out.cov["distinct_nontrivial"], out.cov["traces_validated_against_impl"])
+    out.assumptions += ["the arrival of built-in protocols at the barrier is not observable: the barrier clause is judged against the scripted applications",
+                        "the T + 1 s bound is exact under the paused clock only"]
+
+
+RUNNERS = {"C13": run_c13, "C04": run_c04, "C05": run_c05, "C06": run_c06}
+SPECS = {"C13": "TraceLifecycle", "C04": "TraceDemux", "C05": "TraceLink", "C06": "TraceArp"}
 
 
 def run(prop, tier, seed, out, replay=None):
@@ -104,7 +144,14 @@ def run(prop, tier, seed, out, replay=None):
     if replay:
         r = json.load(open(replay))
         args = r["driver"]
-        hv(HV_CORE, args)
+        if prop in ("C13",):
+            build_harness(("hv-sim",))
+            a2 = [x for x in args]
+            runs = int(a2[a2.index("--runs") + 1])
+            del a2[a2.index("--runs"):a2.index("--runs") + 2]
+            hv_resumable(HV_SIM, a2, runs)
+        else:
+            hv(HV_CORE, args)
         tp = args[args.index("--out") + 1]
         chunked_validate(out, prop, r.get("spec", SPECS[prop]), tp, args, 60000)
         return
